@@ -241,8 +241,51 @@ class Eval:
             pc = PARAM_CONTRACTS.get((self.fn.mod, self.fn.qual, e.id))
             if pc:
                 return under("PARAM:" + e.id if pc == "ANY" else pc)
+            inferred = infer_param(self.fn, e.id, self.bases)
+            if inferred is not None:
+                return inferred
             return unknown(f"name {e.id}")
         return unknown(type(e).__name__)
+
+
+_INFER_STACK = []
+
+
+def infer_param(fn, name, bases):
+    """parameter contract of a *private* helper (`_name`, only ever called, never passed around): what every caller in the package passes.  The helper's writes are then
+    confined because each call site's argument is - the obligation moves to the call sites, as for the declared PARAM_CONTRACTS.  None: not a parameter / not private /
+    no callers / referenced other than by a call."""
+    a = fn.node.args
+    params = [x.arg for x in a.posonlyargs + a.args]
+    simple = fn.qual.split(".")[-1]
+    if name not in params + [x.arg for x in a.kwonlyargs] or not simple.startswith("_") or simple.startswith("__") or (fn.mod, fn.qual, name) in _INFER_STACK:
+        return None
+    is_method = fn.cls is not None and params and params[0] in ("self", "cls")
+    pos = params.index(name) - (1 if is_method else 0) if name in params else None
+    vals = []
+    _INFER_STACK.append((fn.mod, fn.qual, name))
+    try:
+        for caller in functions():
+            if caller.mod != fn.mod:
+                continue
+            for n in ast.walk(caller.node):
+                if isinstance(n, ast.Attribute) and n.attr == simple or isinstance(n, ast.Name) and n.id == simple:
+                    par = next((c for c in ast.walk(caller.node) if isinstance(c, ast.Call) and c.func is n), None)
+                    if par is None:
+                        return None          # the helper escapes as a value
+                    arg = next((k.value for k in par.keywords if k.arg == name), par.args[pos] if pos is not None and pos < len(par.args) and not any(isinstance(x, ast.Starred) for x in par.args) else None)
+                    if arg is None:
+                        return unknown(f"parameter {name} of {fn.qual}: a caller does not pass it ({ast.unparse(par)[:60]})")
+                    vals.append(Eval(caller, bases, par.lineno).ev(arg))
+    finally:
+        _INFER_STACK.pop()
+    if not vals:
+        return None
+    if all(v.kind == "under" for v in vals) and len({v.root for v in vals}) == 1:
+        return under(vals[0].root)
+    if all(v.kind == "safe" for v in vals):
+        return SAFE
+    return unknown(f"parameter {name} of {fn.qual}: callers pass {vals}")
 
 
 def _guarded(fn_node, call, target_src):
@@ -280,6 +323,11 @@ def sites():
                 out.append((fn, c, c.args[0], "graphviz render"))
             elif isinstance(f, ast.Name) and f.id == "open" and len(c.args) >= 2 and isinstance(c.args[1], ast.Constant) and any(ch in str(c.args[1].value) for ch in "wax+"):
                 out.append((fn, c, c.args[0], "open(.., 'w')"))
+            elif ((isinstance(f, ast.Attribute) and isinstance(f.value, ast.Name) and f.value.id == "tempfile") or isinstance(f, ast.Name)) and \
+                    (f.attr if isinstance(f, ast.Attribute) else f.id) in ("NamedTemporaryFile", "TemporaryFile", "SpooledTemporaryFile", "TemporaryDirectory", "mkstemp", "mkdtemp"):
+                # a temporary file is a file: it is created in `dir=` - without one, in the system's temp directory, which is not the output directory
+                d = next((k.value for k in c.keywords if k.arg == "dir"), None)
+                out.append((fn, c, d if d is not None else ast.Constant(value="/<system temp directory>"), f"tempfile.{f.attr if isinstance(f, ast.Attribute) else f.id}"))
             elif isinstance(f, ast.Attribute) and f.attr in ("remove", "makedirs", "mkdir", "rename", "unlink") and isinstance(f.value, ast.Name) and f.value.id == "os" and c.args:
                 out.append((fn, c, c.args[0], f"os.{f.attr}"))
     return out
@@ -298,10 +346,13 @@ def obligations(prop="C19"):
         tsrc = ast.unparse(target)
         ok = v.kind == "under"
         detail = ""
-        if not ok and isinstance(target, ast.BinOp):
+        texpr = target
+        if isinstance(target, ast.Name) and (la := ev.local_assign(target.id)) is not None and isinstance(la.value, ast.BinOp):
+            texpr = la.value            # `dest = to_path / item; dest.resolve().relative_to(..); copytree(.., dest)` is the same form as the inlined one
+        if not ok and isinstance(texpr, ast.BinOp):
             # Under(R) / guarded-component with the relative_to guard in front
-            l, r = ev.ev(target.left), ev.ev(target.right)
-            if l.kind == "under" and r.kind == "guarded" and _guarded(fn.node, call, tsrc):
+            l, r = ev.ev(texpr.left), ev.ev(texpr.right)
+            if l.kind == "under" and r.kind == "guarded" and (_guarded(fn.node, call, tsrc) or _guarded(fn.node, call, ast.unparse(texpr))):
                 ok, v = True, under(l.root)
                 detail = "component checked at run time by `.resolve().relative_to(...)` directly before the call"
         deleting = what in ("shutil.rmtree", ".unlink()", ".rmdir()", "os.remove", "os.unlink", "shutil.move")
@@ -423,6 +474,7 @@ def refusal_obligations(prop="C19"):
         return [OR(id=f"{prop}.S.refusal.anchor", status=UNKNOWN, kind="S", target="ford.parse_arguments", detail="parse_arguments not found")]
     loops = [n for n in ast.walk(pa[0]) if isinstance(n, ast.For) and "src_dir" in ast.unparse(n.iter)]
     ok_loop = False
+    conditional = None
     for lp in loops:
         for st in ast.walk(lp):
             if isinstance(st, ast.If) and any(isinstance(x, ast.Raise) for x in ast.walk(st)):
@@ -430,6 +482,16 @@ def refusal_obligations(prop="C19"):
                 var = lp.target.id if isinstance(lp.target, ast.Name) else "?"
                 if t == f"proj_data.output_dirin({var},*{var}.parents)":
                     ok_loop = ast.unparse(lp.iter).replace(" ", "") == "proj_data.src_dir"
+                    # "whatever the options": the raise is a statement of that branch itself, not under a further condition (`if not force: raise`)
+                    if not any(isinstance(x, ast.Raise) for x in st.body):
+                        inner = next((x for x in ast.walk(st) if isinstance(x, ast.If) and x is not st and any(isinstance(y, ast.Raise) for y in ast.walk(x))), None)
+                        conditional = ast.unparse(inner.test) if inner is not None else "?"
+    r_unc = OR(id=f"{prop}.S.refusal.whatever_the_options", status=REFUTED if conditional else PROVED, kind="S", role="post", backend="ast", target="ford.parse_arguments",
+               desc="the refusal is raised by the branch that found the source directory inside the output directory, under no further condition")
+    if conditional:
+        r_unc.witness = {"the raise stands under": conditional}
+        r_unc.detail = f"with `{conditional}` false the run goes on and write-out begins by removing the output directory, sources included"
+    out.append(r_unc)
     out.append(OR(id=f"{prop}.S.refusal.every_source_dir_and_all_ancestors", status=PROVED if ok_loop else REFUTED, kind="S", role="post", backend="ast",
                   target="ford.parse_arguments", desc="raises iff output_dir equals some source directory or one of its ancestors: the test `output_dir in (srcdir, *srcdir.parents)` "
                   "guards a raise inside a loop over every proj_data.src_dir"))
